@@ -5,7 +5,7 @@
 use crate::engine::{fingerprint, Report, Violation};
 use crate::ksys::EKey;
 use crate::rt::{self, guard};
-use crate::ssys::{ref_bucket, ref_cover, ref_places, ref_scale, Coord, SV};
+use crate::ssys::{ref_bucket, ref_places, ref_scale, tiles_exactly, Coord, SV};
 use crate::{die, finish, json, Args};
 use i_tree::key::array::IntoArray;
 use i_tree::key::exp::KeyExpCollection;
@@ -234,20 +234,9 @@ fn sweep_pairs(a: &Args) -> ! {
                 acc.evals += 1;
                 let case = vec![format!("new([0,31])"), format!("insert([{ia},{ib}],exp={e})")];
                 // tiling, computed from heap arithmetic only
-                let mut cover = [0u8; 32];
-                for &p in &have {
-                    if p > 62 {
-                        acc.viol("insert", "placement", format!("copy stored at place {p} outside the 63-node heap"), case.clone());
-                        continue;
-                    }
-                    let (l, r) = ref_cover(p);
-                    for x in l..=r {
-                        cover[x as usize] += 1;
-                    }
-                }
-                let tiles = (0..32u32).all(|x| cover[x as usize] == ((ia <= x && x <= ib) as u8));
-                if !tiles || have.len() > 8 || have != ref_places(ia, ib) {
-                    acc.viol("insert", "placement", format!("insert of [{ia},{ib}] stored {} copies at places {have:?}; they do not tile the range exactly with at most 8 maximal nodes (expected {:?})", have.len(), ref_places(ia, ib)), case);
+                let tiles = tiles_exactly(&have, ia, ib);
+                if !tiles {
+                    acc.viol("insert", "placement", format!("insert of [{ia},{ib}] stored {} copies at places {have:?}; they do not tile the range exactly with at most 8 places (maximal tiling: {:?})", have.len(), ref_places(ia, ib)), case);
                 }
                 acc.count("copies_total", have.len() as u64);
                 let m = acc.counters.get("max_copies").copied().unwrap_or(0);
@@ -424,6 +413,7 @@ fn sweep_purge(a: &Args) -> ! {
                     let keep = SV { id: 2, exp: 9 };
                     t.insert_by_range(SegRange { min: ia as i32, max: ib as i32 }, v);
                     t.insert_by_range(SegRange { min: ia as i32, max: ib as i32 }, keep);
+                    let (before1, before2) = (places_of(&t, 1), places_of(&t, 2));
                     rt::hist_push(code(2, c as u64, d as u64, tq as u64, 0));
                     let _ = full_query(&mut t, c, d, tq);
                     acc.transitions += 3;
@@ -449,8 +439,7 @@ fn sweep_purge(a: &Args) -> ! {
                         }
                     }
                     // nothing unexpired may disappear
-                    let want = ref_places(ia, ib);
-                    if places_of(&t, 2) != want || (e >= tq && places_of(&t, 1) != want) {
+                    if places_of(&t, 2) != before2 || (e >= tq && places_of(&t, 1) != before1) {
                         acc.viol("query", "lost-copy", format!("query [{c},{d}] at time {tq} removed copies of an unexpired value stored over [{ia},{ib}]"), case.clone());
                     }
                     if (c, d) == (0, 31) && e < tq && !places_of(&t, 1).is_empty() {
@@ -508,8 +497,8 @@ where
     let nb = ref_bucket(lo, s, hi) + 1;
     let nlists = t.verif_chunks().len() as u32;
     acc.states.insert(fingerprint(format!("{}:{lo}:{len}", R::NAME).as_bytes()));
-    if nb > 32 || nlists != 31 + nb {
-        acc.viol("new", "storage", format!("{nlists} bucket lists allocated; last reachable leaf place is {} (bucket of hi = {})", 31 + nb - 1, nb - 1), case0.clone());
+    if nb > 32 || nlists < 31 + nb || nlists > 63 {
+        acc.viol("new", "storage", format!("{nlists} bucket lists allocated; last reachable leaf place is {} (bucket of hi = {}), every reachable place must be backed by storage", 31 + nb - 1, nb - 1), case0.clone());
         return;
     }
     // coordinates to probe
@@ -534,6 +523,7 @@ where
         xs.dedup();
     }
     let mut prev_bucket = 0u32;
+    let mut place_of: Vec<Option<u32>> = vec![None; 32];
     for (k, &x) in xs.iter().enumerate() {
         rt::hist_push(code(3, case_no, (len & 0x3fff) as u64, ((len >> 14) & 0x3fff) as u64, (k & 0x3fff) as u64));
         let want = ref_bucket(lo, s, x);
@@ -552,9 +542,18 @@ where
                 return;
             }
             Ok(at) => {
-                if at != vec![31 + want] {
-                    acc.viol("insert", "bucket", format!("coordinate {x} of domain [{lo},{hi}] was stored at places {at:?}, expected leaf place {} (bucket {want}, bucket width 2^{s})", 31 + want), vec![case0[0].clone(), format!("insert([{x},{x}])")]);
+                // a single point is stored once; which place a bucket gets is the implementation's business,
+                // but it must be a function of the bucket and different buckets must get different places
+                let consistent = at.len() == 1 && want < 32 && match place_of[want as usize] {
+                    Some(q) => q == at[0],
+                    None => !place_of.contains(&Some(at[0])),
+                };
+                if !consistent {
+                    acc.viol("insert", "bucket", format!("coordinate {x} of domain [{lo},{hi}] (bucket {want} for width 2^{s}) was stored at places {at:?}; bucket -> place so far {:?}: coordinates of one bucket must share one place and different buckets must not", place_of.iter().flatten().collect::<Vec<_>>()), vec![case0[0].clone(), format!("insert([{x},{x}])")]);
                     return;
+                }
+                if want < 32 {
+                    place_of[want as usize] = Some(at[0]);
                 }
                 if want < prev_bucket || want >= 32 {
                     acc.viol("insert", "monotone", format!("bucket mapping not monotone / out of range at {x}"), vec![case0[0].clone()]);
